@@ -29,6 +29,9 @@ var astTransforms = map[string]astTransform{
 	"early-return-to-else": earlyReturnToElse,
 	// return f(x) in a function with one result -> r0 := f(x); return r0
 	"return-via-temp": returnViaTemp,
+	// every identifier that a rule uses as an anchor by name (and that is distinctive enough to be renamed by
+	// spelling alone) gets another name: the rules have to re-identify their functions (anchors.go)
+	"rename-anchors": renameAnchors,
 	// if a && b { S } (no else, no init) -> if a { if b { S } }
 	"split-and-conditions": splitAndConditions,
 	// if f(x) op y { ... } (a statement of a block, no init) -> c0tmp := f(x); if c0tmp op y { ... }
@@ -363,4 +366,24 @@ func init() {
 				Note: "behaviour-preserving rewrite of every library file: " + name})
 		}
 	}
+}
+
+var renamedAnchors = map[string]bool{}
+
+func init() {
+	for _, n := range strings.Fields("atomElipsis atomThen atomDot atomComma atomEqual atomNegation binaryFunctors bindingPriorities collectionOf dcgBody dcgCBody dcgNonTerminal dcgTerminals expandDCG floatItoF isSingleQuotedCharacter letterDigit graphic newRuneRingBuffer permissionError renamedCopy rootEnv simplify term0Atom termOf validateOp writeCompoundFunctionalNotation sameClause assertMerge prepareRead initRead numericEscape nth comparands") {
+		renamedAnchors[n] = true
+	}
+}
+
+func renameAnchors(fset *token.FileSet, f *ast.File) int {
+	n := 0
+	ast.Inspect(f, func(nd ast.Node) bool {
+		if id, ok := nd.(*ast.Ident); ok && renamedAnchors[id.Name] {
+			id.Name += "Renamed"
+			n++
+		}
+		return true
+	})
+	return n
 }
